@@ -38,6 +38,9 @@ from cnfgen.clitools.cmdline import CLIError
 RULE = ("clirun: randkcnf/randkxor [-p] over k,n,m incl. dense and impossible requests; kcolor over gnp N p [t] / empty N / "
         "complete N with plantclique/addedges/splitedges; each with --seed/-S {0,1,-5,2^31,random}, without seed, with -q; "
         "distinct = distinct argv; phasetrace: every random sub-command x tool")
+TRUSTED_EXTRA = ["tools/extract_phases.py (ast translator: phase order of cli(), call sites of random, seeded generators, "
+                 "static hazards -> Generated/Phases.lean)",
+                 "lean/CnfgenModel/Cli/HazardReview.lean (reviewed snapshot of the static hazards, one justification per entry)"]
 ASSUMPTIONS = ["random.seed(s) installs a state that is a function of s only (sigma)",
                "networkx.gnp_random_graph draws one random() per pair of combinations(range(n), 2) from the generator it is "
                "given (checked on every gnp case: the recorded draws are replayed by the model)"]
@@ -377,7 +380,7 @@ def clirun_cases(ctx):
     out = []
     cmds = formula_cmds(rng, tier) + graph_cmds(rng, tier)
     for i, c in enumerate(cmds):
-        pres = prefixes if tier == "thorough" else [prefixes[0], prefixes[1 + i % (len(prefixes) - 1)], prefixes[1 + (i + 2) % (len(prefixes) - 1)]]
+        pres = prefixes if tier == "thorough" else ([prefixes[0]] if i % 2 else []) + [prefixes[1 + i % (len(prefixes) - 1)]]
         for p in pres:
             out.append(RunCase(["cnfgen"] + p + c, cls=c[0] + (":seed" if any(x in p for x in ("--seed", "-S")) else ":noseed")))
         # pbgen: the same sub-commands, OPB rendering
